@@ -31,14 +31,14 @@ KmCertCreds == {Cred("kmcert", v, {}, "alice") : v \in {"good", "old23h", "expir
 \* loopback_xff: the TCP peer is 127.0.0.1 (outside the netblocks) and the request carries X-Forwarded-For / X-Real-Ip naming an inside address
 \* outside_near: a peer outside the (non octet aligned) netblock but inside the octet aligned block around it
 IpCertCreds == {Cred("ipcert", v, {}, "svc") : v \in {"inside", "outside", "outside_near", "loopback_xff", "inside_notauto", "chain1_inside",
-                                                       "chain1_outside"}}
+                                                       "chain1_outside", "inside_old"}}
 Creds(FS) == {NoCred} \cup CookieCreds(FS) \cup BasicCreds \cup KmCertCreds \cup IpCertCreds
 
 \* ---------------------------------------------------------------- what a credential establishes
 Valid(c) == \/ c.kind = "basic"  /\ c.var \in {"ok", "upper"}
             \/ c.kind = "cookie" /\ c.var = "good"
             \/ c.kind = "kmcert" /\ c.var \in {"good", "old23h"}
-            \/ c.kind = "ipcert" /\ c.var \in {"inside", "chain1_inside"}
+            \/ c.kind = "ipcert" /\ c.var \in {"inside", "chain1_inside", "inside_old"}
 
 Proves(c) == IF ~Valid(c) THEN {}
              ELSE CASE c.kind = "basic"  -> {"pw"}
@@ -98,7 +98,7 @@ SweepCreds == {NoCred, Cred("basic", "ok", {}, "alice"), Cred("cookie", "good", 
                Cred("cookie", "expired", {"pw", "u2f"}, "alice"), Cred("cookie", "key", {"pw", "u2f"}, "alice"),
                Cred("cookie", "expired_just", {"pw", "u2f"}, "alice"),
                Cred("kmcert", "good", {}, "alice"), Cred("ipcert", "inside", {}, "svc"),
-               Cred("ipcert", "outside", {}, "svc"), Cred("ipcert", "outside_near", {}, "svc")}
+               Cred("ipcert", "outside", {}, "svc"), Cred("ipcert", "outside_near", {}, "svc"), Cred("ipcert", "inside_old", {}, "svc")}
 InSweep(r) == \E cfg \in SweepCfgs, c \in SweepCreds, m \in {"POST", "GET", "PUT"},
                  ct \in CertTypes \cup {"bogus"}, t \in {"alice", "bob", "Alice", "svc"},
                  s \in BOOLEAN, o \in {"none", "same", "cross"} :
